@@ -5,7 +5,7 @@
    _randomizedSelect, numpy.random.shuffle outcomes). *)
 From Coq Require Import List ZArith QArith Bool Permutation Lia.
 From DV Require Import Base.PyList Base.C07_Num Model.C07_Spea2 Model.C07_Nsga3 Model.C07_RefPoints
-                       Proofs.C07_Spea2 Proofs.C07_Nsga3 Proofs.C07_RefPoints Proofs.C07_Select.
+                       Proofs.C07_Spea2 Proofs.C07_Nsga3 Proofs.C07_RefPoints Proofs.C07_SelectGen.
 Import ListNotations.
 Local Open Scope nat_scope.
 
@@ -212,12 +212,35 @@ Theorem C07_find_extreme_points_spec : forall fits best prev i,
 Proof. exact find_extreme_points_spec. Qed.
 Print Assumptions C07_find_extreme_points_spec.
 
-(* _randomizedSelect = element of rank i for every in-range pivot sequence.
-   BOUNDED: arrays of length 1..5 over {0,1,2}, every rank, every draw sequence (by evaluation);
-   not used by any other theorem. *)
-Theorem C07_rand_select_kth_bounded : forallb select_ok_on [1; 2; 3; 4; 5] = true.
-Proof. exact rand_select_kth_bounded. Qed.
-Print Assumptions C07_rand_select_kth_bounded.
+(* _randomizedSelect(array, begin, end, i) returns an element of rank i of the segment, for EVERY
+   sequence of in-range pivot draws (general: any array, any segment, Hoare-partition invariant).
+   Rank by counting:  #{u | a[u] < v} <= i < #{u | not (v < a[u])}.  Generic in the numeric instance,
+   for any strict weak order. *)
+Theorem C07_rand_select_rank : forall {T} (Op : numops T),
+  (forall x, n_ltb Op x x = false) ->
+  (forall x y z, n_ltb Op x y = true -> n_ltb Op y z = true -> n_ltb Op x z = true) ->
+  (forall x y z, n_ltb Op x y = false -> n_ltb Op y z = false -> n_ltb Op x z = false) ->
+  forall fuel arr b e i draws,
+  (0 <= b)%Z -> (b <= e)%Z -> (e < Z.of_nat (length arr))%Z -> (0 <= i <= e - b)%Z -> (e - b + 1 <= Z.of_nat fuel)%Z ->
+  draws_valid Op fuel arr b e i draws = true ->
+  rank_ok Op arr b e i (fst (rand_select Op fuel arr b e i draws)).
+Proof. intros T Op H1 H2 H3. exact (rand_select_rank Op H1 H2 H3). Qed.
+Print Assumptions C07_rand_select_rank.
+
+(* exact instance: the pivot draws do not affect the result — it is always equivalent (neither <)
+   to the i-th element of the sorted array, the reference semantics "k-th smallest" *)
+Theorem C07_rand_select_is_kth : forall (arr : list qx) (i : Z) draws,
+  (0 <= i < Z.of_nat (length arr))%Z ->
+  draws_valid qx_ops (S (length arr)) arr 0 (Z.of_nat (length arr) - 1) i draws = true ->
+  let v := fst (rand_select qx_ops (S (length arr)) arr 0 (Z.of_nat (length arr) - 1) i draws) in
+  qx_ltb (kth_smallest qx_ops arr i) v = false /\ qx_ltb v (kth_smallest qx_ops arr i) = false.
+Proof. exact (rand_select_is_kth qx_ops qx_lt_irrefl qx_lt_trans qx_nlt_trans). Qed.
+Print Assumptions C07_rand_select_is_kth.
+
+(* the rank selSPEA2 asks for is inside the array *)
+Theorem C07_rank_of_range : forall N, 2 <= N -> (0 <= rank_of N <= Z.of_nat N - 1)%Z.
+Proof. exact rank_of_range. Qed.
+Print Assumptions C07_rank_of_range.
 
 (* ================================================================== *)
 (* reference points (DESIGN A8) *)
